@@ -182,6 +182,8 @@ META["explanation"] += " " + "Also (rounds 10-11): call_rcu's read-side bracket 
 
 META["explanation"] += " " + 'Also (round 12): helper-selection state is written only by its setters (shared from C03).'
 
+META["explanation"] += " " + 'Also (round 14): the polling prototypes carry no pure / const attribute (an optimised caller would poll once).'
+
 RULES = [
     ("C14.proto", lambda c, r: __import__("sa.attrs", fromlist=["x"]).rule_nopure(c, r, "C14.proto", 'poll_state_synchronize_rcu|start_poll_synchronize_rcu', "grace-period polling", 8)),   # compiler-visible contract of the public prototypes: pure / const would let an optimised caller poll once
     ("C14.child", rule_child_adopts),
